@@ -152,7 +152,9 @@ Exec ==
                                ELSE /\ pc' = calls[Len(calls)].pc /\ blk' = calls[Len(calls)].blk
                                     /\ calls' = SubSeq(calls, 1, Len(calls) - 1) /\ UNCHANGED status
                             /\ UNCHANGED <<env, out>>
-       [] c.op = "echo" -> blk' = rest /\ out' = out \o (IF c.dot THEN "" ELSE Exp(c.text, fv, env)) \o "\n"
+       \* R13: ECHO [ON | OFF] - an argument that IS the word on or off (any letter case, after expansion) switches command echoing and prints nothing
+       [] c.op = "echo" -> LET txt == IF c.dot THEN "" ELSE Exp(c.text, fv, env) IN
+                           /\ blk' = rest /\ out' = (IF ~c.dot /\ Fold(txt) \in {"on", "off"} THEN out ELSE out \o txt \o "\n")
                            /\ UNCHANGED <<pc, calls, env, status, code>>
        [] OTHER -> status' = "unsupported" /\ UNCHANGED <<pc, blk, calls, env, out, code>>
 
